@@ -317,7 +317,13 @@ pub fn step<M: Mem>(st: &St, wd: &Words, m: &mut M) -> Exp {
             e.exec(F_DIVXU_B, 2);
             e.flag(CCR_N, s & 0x80 != 0);
             e.flag(CCR_Z, s == 0);
-            if s == 0 || d / s > 0xff {
+            if wd.relax_div {
+                if s == 0 {
+                    e.pre = false;
+                }
+                let lane: u32 = if rd4 < 8 { 0x0000_ffff } else { 0xffff_0000 };
+                e.free_er[(rd4 & 7) as usize] = lane;
+            } else if s == 0 || d / s > 0xff {
                 e.pre = false;
             } else {
                 ww(&mut e.st.er, rd4, ((d % s) << 8) | (d / s));
@@ -332,7 +338,12 @@ pub fn step<M: Mem>(st: &St, wd: &Words, m: &mut M) -> Exp {
                 e.exec(F_DIVXU_W, 2);
                 e.flag(CCR_N, s & 0x8000 != 0);
                 e.flag(CCR_Z, s == 0);
-                if s == 0 || d / s > 0xffff {
+                if wd.relax_div {
+                    if s == 0 {
+                        e.pre = false;
+                    }
+                    e.free_er[(rd4 & 7) as usize] = 0xffff_ffff;
+                } else if s == 0 || d / s > 0xffff {
                     e.pre = false;
                 } else {
                     wl(&mut e.st.er, rd4, ((d % s) << 16) | (d / s));
